@@ -16,8 +16,12 @@ MANIFEST = dict(
     text="Coq theorems: C06_sound_if_identity_separates (for any history of submissions into one cache root, a cache "
          "keyed by the checksum returns run(task) for every submission whenever the checksum separates submitted tasks "
          "with different results; invariant over the store), C06_stale_if_identity_merges (the converse), "
-         "C06_identity_of_digests / C06_separates_values (the checksum sees the inputs exactly through their value "
-         "digests, which separate content, type and nesting: C08), C06_array_shape_dtype_separated (after the repair of "
+         "C06_checksum_injective (Merkle argument carried through _compute_hashes + _checksum: equal checksums of tasks "
+         "whose hashed field values lie in the domain of C08_ser_injective imply the same task type and, field by field, "
+         "equal values up to set/dict order, or an explicit blake2b collision among the strings actually hashed, incl. "
+         "the outer list of (name, hex digest) items), C06_history_sound_or_collision (over any history of such tasks "
+         "whose run depends only on the hashed aspects, every submission returns run(task) or a collision is exhibited), "
+         "C06_identity_of_digests / C06_separates_values, C06_array_shape_dtype_separated (after the repair of "
          "bytes_repr_numpy), and refutations C06_refuted_closure, C06_refuted_field_metadata with the general lemmas "
          "C06_identity_ignores_closure / _metadata (closure cells, globals, argstr/position/sep/formatter never reach "
          "Task._compute_hashes). Correspondence: pairs of real python and shell tasks differing in exactly one aspect, "
